@@ -196,9 +196,22 @@ const (
 	// (gopatch and the printer add some to keep the meaning), but a
 	// parenthesis that is expected and absent is a difference.
 	OutputParens
+	// OutputSites is OutputParens inside the reference's sites (and inside
+	// alternatives, which hold optionally rewritten code); everywhere else
+	// parentheses have to be exactly the expected ones: nothing outside a
+	// rewritten fragment may gain or lose any.
+	OutputSites
 )
 
-func (m Mode) output() bool { return m == Output || m == OutputParens }
+func (m Mode) output() bool { return m == Output || m == OutputParens || m == OutputSites }
+
+// inside returns the mode that applies within a site or an alternative.
+func (m Mode) inside() Mode {
+	if m == OutputSites {
+		return OutputParens
+	}
+	return m
+}
 
 // tokenPos lists the position fields whose validity stands for the presence
 // of a token that no other field records.
@@ -296,6 +309,7 @@ func FirstDifference(want, got *Tree, m Mode) *Difference { return diffPath(want
 func diffPath(want, got *Tree, m Mode, path []string) *Difference {
 	if want != nil && want.Kind == KAlt {
 		var first *Difference
+		m = m.inside()
 		for _, alt := range want.Kids {
 			d := diffPath(alt, got, m, path)
 			if d == nil {
@@ -310,6 +324,9 @@ func diffPath(want, got *Tree, m Mode, path []string) *Difference {
 	if m == OutputParens && isParen(want) && !isParen(got) && got != nil {
 		return &Difference{Path: append([]string(nil), path...), Want: want, Got: got, Why: "expected parentheses are absent"}
 	}
+	if m == OutputSites && want != nil && got != nil && want.Kind != KAlt && want.Site == 0 && isParen(want) != isParen(got) {
+		return &Difference{Path: append([]string(nil), path...), Want: want, Got: got, Why: "parentheses differ outside the rewritten fragments"}
+	}
 	want, got = strip(want, m), strip(got, m)
 	if want != nil && want.Kind == KAlt {
 		return diffPath(want, got, m, path)
@@ -318,6 +335,7 @@ func diffPath(want, got *Tree, m Mode, path []string) *Difference {
 		// Entering the replacement of a reference site.
 		w2 := *want
 		w2.Site, w2.Orig = 0, nil
+		m = m.inside()
 		d := diffPath(&w2, got, m, path)
 		if d != nil && d.Site == 0 {
 			if want.Orig != nil && diffPath(want.Orig, got, m, nil) == nil {
